@@ -66,6 +66,12 @@ CLAIMED["C09"] = (
     "Trusted: lowering + typed runtime (validated against the compiled module per run), the brute-force oracles, z3. Only the seed-extension kernels are encoded from source; the banded and X-drop table kernels are checked through the compiled binary (E-class). Outside: sequences longer than 4, |A| > 2. Known finding: align_banded boundary gap columns.",
     "DESIGN.md §4 C09")
 
+CLAIMED["C01"] = (
+    "SX: atoms.py executed from its transformed source with symbolic integer indices and slice bounds (Python-level dispatch and index arithmetic explored symbolically, concretised by forking at the numpy boundary); operation histories by solver-driven case split; list-of-atoms reference model",
+    "Bounded model checking of AtomArray/AtomArrayStack: every index form (int, slice with symbolic bounds -5..5 and steps, masks, index arrays, ellipsis, all two-dimensional stack forms) on 3 atoms x 2 models with and without bonds/box gives the result of the list-of-atoms model; every operation sequence of length 2 (3) over 10 operations keeps annotation arrays, coordinates, boxes and the bond list consistent with the model (lengths/depths checked after each step), copies (array, stack, Atom) are equal and independent.",
+    "Trusted: numpy's own indexing (the model resolves indices with Python list semantics), the compiled BondList, SInt model, z3. Outside: more than 3 atoms / 2 models / 3 steps, annotation dtypes beyond int/str, NaN coordinates, integer indices outside the valid range (not accepted by numpy).",
+    "DESIGN.md §4 C01")
+
 NOT_APPLICABLE = {
     "C15": "float results of numpy/LAPACK (linalg solves, trigonometry, argmin over float images): no integer/string logic in front of the C boundary that a solver could reason about; an abstraction over the reals would verify a model of numpy, not the code (DESIGN §6)",
     "C16": "optimality/properness come from np.linalg.svd/det (LAPACK behind FFI) on float32 data; no encodable source; z3 terms cannot pass astype(float32) (DESIGN §6)",
